@@ -251,6 +251,15 @@ class C02(RenderProp):
     def nontrivial(self, case, impl):
         return case.get("depth", 0) >= 3 and not case.get("_declined")
 
+    def compare(self, case, impl, model, spec):
+        if case.get("bucket") == "go-truthiness":
+            # a Go struct as a test, before and after one of its members was read: T|..|T|T or F|..|F|F, never a mix
+            i = out_of(impl)
+            parts = (i[1] or "").split("|")
+            ok = i[0] == "ok" and len(parts) == 4 and parts[0] in ("T", "F") and parts[0] == parts[2] == parts[3]
+            return True, ok, "%s: %r" % (case.get("what"), i)
+        return RenderProp.compare(self, case, impl, model, spec)
+
 
 class C03(RenderProp):
     id = "C03"
